@@ -142,25 +142,31 @@ impl<'result> CustomTypeParser<'result> {
         self.accept_in_place("(")
             .map_err(|_| CustomTypeParseError::UnexpectedCharacter(self.get_first_char(), '('))?;
 
-        // Once the end of input was reported, the iterator must end: the parser cannot
-        // advance any more, so it would otherwise yield the same error for ever.
-        let mut reported_end_of_input = false;
+        // The iterator ends for good after the closing parenthesis or after the first
+        // error: past an error the parser may be unable to advance any more and would
+        // otherwise yield the same error for ever.
+        let mut finished = false;
         Ok(Either::Right(std::iter::from_fn(move || {
-            if reported_end_of_input {
+            if finished {
                 return None;
             }
             self.skip_blank_and_comma();
             if self.parser.is_at_eof() {
-                reported_end_of_input = true;
+                finished = true;
                 return Some(Err(CustomTypeParseError::UnexpectedEndOfInput));
             }
             let result = self.parser.accept(")");
             match result {
                 Ok(parser) => {
                     self.parser = parser;
+                    finished = true;
                     None
                 }
-                Err(_) => Some(self.do_parse()),
+                Err(_) => {
+                    let parameter = self.do_parse();
+                    finished = parameter.is_err();
+                    Some(parameter)
+                }
             }
         })))
     }
@@ -259,24 +265,19 @@ impl<'result> CustomTypeParser<'result> {
     fn get_n_type_parameters<const N: usize>(
         &mut self,
     ) -> Result<[Result<ColumnType<'result>, CustomTypeParseError>; N], CustomTypeParseError> {
-        let mut backup = Self {
-            parser: self.parser,
-            frozen_context: self.frozen_context,
-            depth: self.depth,
-        };
+        // The parameters are parsed exactly once: parsing them again just to count them
+        // would double the work at every nesting level.
+        let mut parameters = self.get_type_parameters()?;
+        let expected_parameters: Vec<_> = parameters.by_ref().take(N).collect();
+        let actual_parameter_count = expected_parameters.len() + parameters.count();
 
-        // FIXME: Rewrite using std::iter::FromIterator::collect_array after it is stabilized.
-        // See rust-lang/rust#149266
-        itertools::Itertools::collect_array::<N>(self.get_type_parameters()?).ok_or_else(|| {
-            // unwrap(): get_type_parameters() already worked above, so it will work here as well.
-
-            let actual_parameter_count = backup.get_type_parameters().unwrap().count();
-
-            CustomTypeParseError::InvalidParameterCount {
+        <[_; N]>::try_from(expected_parameters)
+            .ok()
+            .filter(|_| actual_parameter_count == N)
+            .ok_or(CustomTypeParseError::InvalidParameterCount {
                 actual: actual_parameter_count,
                 expected: N,
-            }
-        })
+            })
     }
 
     fn get_complex_abstract_type(
